@@ -50,3 +50,13 @@ CHECKS.update({
     note=R1NOTE,
     technique='Hypothesis property-based testing against an independent indentation model derived from a reference parse of the output'),
 })
+CHECKS.update({
+ 'C08': dict(
+    text='Every positioned fragment yielded by five printer configurations (pretty, minify, drop_semi, obfuscation with and without globals), with and without comment capture, over one to three chained source files with hostile layout, is looked up in the reference token stream of its source file at the reference offset of its line/column; names of renamed identifiers, comma runs, stripped string continuations, source-file attribution and the inserted-semicolon exemption are handled as the statement says.',
+    note=R1NOTE + ' harness/positions.py for line/column arithmetic.',
+    technique='Hypothesis property-based testing; fragment positions checked against a reference tokenisation of the source'),
+ 'C11': dict(
+    text='calmjs and reference trees of hostile-layout programs (both comment modes) are walked in parallel; every node position must be self-consistent under reference line counting and sit on the node\'s first or operator token inside its extent, and every literal-token table entry must designate a reference token with that text; placeholders of omitted for-clauses and inserted semicolons are exempted exactly as stated.',
+    note=R1NOTE + ' harness/positions.py for line/column arithmetic.',
+    technique='Hypothesis property-based testing; parallel tree walk against a reference parse with token extents'),
+})
